@@ -43,7 +43,15 @@ def c03():
         for page in (1000, 2, 1):
             p.cases.append({"page": page, "codec": CODECS[(len(p.cases) + ck.seed) % 3], "poff": (ck.seed * 7 + len(rr)) % 16,
                             "ops": ops_of("a" * len(rr) + "w", rr)})
-        ck.add("evaluations", 3 * len(rr))
+        # the same records spread over several Write batches of one writer (buffers reused between row groups)
+        k = len(rr)
+        if k >= 2:
+            third = max(1, k // 3)
+            for page, hist in ((1000, "a" * (k - k // 2) + "w" + "a" * (k // 2) + "w"),
+                               (2, "a" * third + "w" + "a" * third + "w" + "a" * (k - 2 * third) + "w" if k >= 3 else "a" * (k - 1) + "waw")):
+                p.cases.append({"page": page, "codec": CODECS[(len(p.cases) + ck.seed) % 3], "poff": (ck.seed * 7 + len(rr) + 1) % 16,
+                                "ops": ops_of(hist, rr)})
+        ck.add("evaluations", 5 * len(rr))
     run_programs(ok, "c03")
     nontrivial = set()
     for p in ok:
@@ -54,7 +62,7 @@ def c03():
     ck.cov["distinct_nontrivial"] = len(nontrivial)
     ck.cov["rule"] = ("cases = (program, record) for every program of F and of the bounded grammar and every record structure with "
                       "list lengths <= 2 exported by TLC (ExportRecs; seeded sample when a schema has more than the cap), each "
-                      "written with page sizes 1000, 2 and 1; non-trivial = the record has an optional or repeated node (a nil, "
+                      "written with page sizes 1000, 2 and 1 in one batch and spread over two and three Write batches; non-trivial = the record has an optional or repeated node (a nil, "
                       "an empty or a non-empty list), counted as distinct (program, record) pairs")
     ck.cov["exhaustive"] = bool(exhaustive)
     for p in ok[:2] + ok[-2:]:
@@ -683,6 +691,20 @@ def c05():
     for i, a in enumerate(sys.argv):
         if a == "--emit-findings":
             emit = sys.argv[i + 1]
+    # ---- the algorithm the generated readers have to implement (Assembly.tla: one column at a time, index vector), model-checked
+    # against the text-book striping over the bounded grammar and over the schema with three nested repeated groups
+    base = {"MaxNodes": 3 if q else 4, "MaxDepth": 3, "MaxKids": 3, "MaxList": 2, "OnlyRep3": "FALSE", "ZeroOnlyNextLevel": "FALSE", "FreshSliceOnValue": "FALSE"}
+    invs = ["AssemblyRoundTrip", "NoImpossibleIndex", "IndexVectorSane"]
+    r1 = model_check("MC_Assembly", base, invs, workers=8, tag="mcasm", timeout=2400)
+    r2 = model_check("MC_Assembly", dict(base, OnlyRep3="TRUE"), invs, workers=8, tag="mcasm3", timeout=2400)
+    ck.cov["spec_states"] = r1["distinct"] + r2["distinct"]
+    # the seeded index-vector slip is invisible with at most two nested lists and visible with three; the known generator slip
+    # (fresh one-element list instead of append) is visible in the smallest repeated group
+    model_check("MC_Assembly", dict(base, MaxNodes=3, MaxDepth=2, ZeroOnlyNextLevel="TRUE"), ["AssemblyRoundTrip", "NoImpossibleIndex"], workers=8, tag="mcasmd2")
+    model_check("MC_Assembly", dict(base, OnlyRep3="TRUE", ZeroOnlyNextLevel="TRUE"), ["AssemblyRoundTrip"], tag="mcasmneg1", expect_violation="AssemblyRoundTrip")
+    model_check("MC_Assembly", dict(base, MaxNodes=2, FreshSliceOnValue="TRUE"), ["AssemblyRoundTrip"], tag="mcasmneg2", expect_violation="AssemblyRoundTrip")
+    ck.cov["negative_controls"] = ["MC_Assembly, index vector clearing only the next level: holds for schemas of depth 2, AssemblyRoundTrip violated for three nested lists",
+                                   "MC_Assembly, fresh one-element list instead of append: AssemblyRoundTrip violated as required"]
     small = export_shapes(3)
     if q:
         u4, u5 = export_shapes(4), export_shapes(5)
@@ -1166,8 +1188,13 @@ def c04():
 
 
 def features_for(col):
-    fs = ["dict", "index-before", "v2", "type-v2-with-dph", "type-index-with-dph", "type-dict-with-dph",
-          "codec-lzo", "codec-brotli", "codec-lz4", "codec-zstd", "codec-lz4raw"]
+    fs = ["dict", "dict-rle", "index-before", "v2", "type-v2-with-dph", "type-index-with-dph", "type-dict-with-dph",
+          "codec-lzo", "codec-brotli", "codec-lz4", "codec-zstd", "codec-lz4raw",
+          "enc-future-4", "enc-future-10", "enc-future-64"]      # 4 = BIT_PACKED as value encoding, 10 / 64 = ids newer than the vendored enum
+    if col["gotype"] in ("int32", "int64", "uint32", "uint64", "float32", "float64"):
+        fs.append("enc-bss")
+    if col["gotype"] == "string":
+        fs.append("enc-delta-ba")
     if col["gotype"] == "bool":
         fs.append("enc-rle-bool")
     if col["gotype"] in ("int32", "int64", "uint32", "uint64"):
@@ -1383,7 +1410,7 @@ def c13():
     from vlib import farm, run_driver
     ck = Check("C13", "model_checking")
     q = ck.quick()
-    base = {"Inst": "{1, 2}", "NPages": 3, "NBuf": 3, "PutBeforeBodyWrite": "FALSE", "MaxSwitches": 1000}
+    base = {"Inst": "{1, 2}", "NPages": 3, "NBuf": 3, "PutBeforeBodyWrite": "FALSE", "MayFail": "{1}", "DoublePutOnError": "FALSE", "MaxSwitches": 1000}
     r = model_check("MC_Pool", base, ["TypeOK", "NonInterference", "NoSharedOwnership"], workers=8, tag="mcpool", coverage=True)
     st, tr = r["distinct"], r["states"]
     ck.cov["spec_action_coverage"] = r["actions"]
@@ -1394,7 +1421,13 @@ def c13():
         st, tr = st + r["distinct"], tr + r["states"]
     ck.cov["states"], ck.cov["transitions"] = st, tr
     model_check("MC_Pool", dict(base, PutBeforeBodyWrite="TRUE"), ["NonInterference"], tag="mcpoolneg", expect_violation="NonInterference")
-    ck.cov["negative_controls"] = ["MC_Pool with PutBeforeBodyWrite: NonInterference violated as required"]
+    # a buffer released twice sits in the pool twice: two other page writes get it at once (three instances, one page each)
+    r = model_check("MC_Pool", dict(base, Inst="{1, 2, 3}", NPages=1), ["TypeOK", "NonInterference", "NoSharedOwnership"], workers=8, tag="mcpool3f")
+    st, tr = st + r["distinct"], tr + r["states"]
+    ck.cov["states"], ck.cov["transitions"] = st, tr
+    model_check("MC_Pool", dict(base, Inst="{1, 2, 3}", NPages=1, DoublePutOnError="TRUE"), ["NonInterference"], tag="mcpoolneg2", expect_violation="NonInterference")
+    ck.cov["negative_controls"] = ["MC_Pool with PutBeforeBodyWrite: NonInterference violated as required",
+                                   "MC_Pool with DoublePutOnError (instance 1's header write may fail): NonInterference violated as required"]
     progs = build_programs(fixed_programs(["Document", "AllTypes", "BoolHeavy"] if q else ["Document", "AllTypes", "BoolHeavy", "Person", "Deep"]))
     ok = usable(progs)
     load_schemas(ok)
@@ -1420,6 +1453,19 @@ def c13():
             ck.add("evaluations")
             if len(sch) >= 2:
                 distinct.add((p.key, json.dumps(sch), tuple(kinds), si % 2))
+        # a writer whose destination starts failing at its k-th call, next to a healthy writer or reader: before it, after it has
+        # written a row group, and interleaved (error paths must not leave shared state behind)
+        ks = list(range(1, 12)) + ck.rng.sample(range(12, 60), 4 if q else 20)
+        for fi, k in enumerate(ks):
+            vk = "r" if fi % 4 == 3 else "w"
+            failing = dict(inst(p, cyc, "w", CODECS[1 + fi % 2], 2, 4), failat=k)
+            victim = inst(p, cyc, vk, CODECS[1 + (fi // 2) % 2] if fi % 5 else CODECS[0], 3, 5)
+            stretch = 60 if vk == "r" else 1
+            for sch in ([[1, 999], [2, 9999]], [[2, 7 * stretch], [1, 999], [2, 9999]], [[2, 3 * stretch], [1, k // 2 + 1], [2, 4 * stretch], [1, 999], [2, 9999]]):
+                p.cases.append({"page": 2, "codec": "snappy", "poff": 0, "ops": [], "sched": {"insts": [failing, victim], "schedule": sch, "prior": "clean" if fi % 3 else "dirty"}})
+                ck.add("evaluations")
+                ck.add("failing_writer_schedules")
+                distinct.add((p.key, "failat", k, vk, len(sch)))
         for si, sch in enumerate(scheds3[:: max(1, len(scheds3) // 300)] if scheds3 else []):
             insts = [inst(p, cyc, "w", CODECS[(si + k) % 3], 2, 4) for k in range(3)]
             p.cases.append({"page": 2, "codec": "snappy", "poff": 0, "ops": [], "sched": {"insts": insts, "schedule": sch, "prior": "dirty"}})
@@ -1429,7 +1475,8 @@ def c13():
     ck.cov["rule"] = ("schedules = sequences of up to %d segments <<instance, n calls>> exported by TLC (ExportSched), replayed with 2 (thorough: also 3) instances "
                       "of the real generated writer/reader on separate goroutines behind blocking sink/source gates under GOMAXPROCS(1), with clean and "
                       "deliberately dirtied buffer pools; every sink call of every instance is compared with the same call of its solo run; non-trivial = at "
-                      "least one context switch; plus a free-running parallel stress under the race detector" % (3 if q else 4))
+                      "least one context switch; plus schedules in which one writer's destination fails from its k-th call on (k = 1..11 and seeded larger k) "
+                      "before / between / interleaved with a healthy writer or reader; plus a free-running parallel stress under the race detector" % (3 if q else 4))
     ck.cov["exhaustive"] = bool(q and len(scheds2) <= 400)
     # reference outputs: every instance alone, in a separate fresh process per program (nothing but earlier solo runs of the
     # same program has happened there); the replay process below is compared with these, so that state left behind by
@@ -1641,6 +1688,119 @@ EXCL_TYPES = ["int", "*int64", "[]string", "map[string]int", "chan int", "func(A
 OTHER_SRC = "type Other struct {\n\tZ int64\n\tW *string\n\tq []int32\n}\n"
 
 
+MIXIN_PAIRS = {
+    # the mixin in the root and in a repeated nested struct (not in first position there)
+    "RootAndRepeated": ("""package main
+
+type Item struct {
+	Name    string
+	Created int64
+	Updated *int64
+	Qty     int32
+}
+
+type Rec struct {
+	Created int64
+	Updated *int64
+	ID      int64
+	Items   []Item
+}
+""", """package main
+
+type Audit struct {
+	Created int64
+	Updated *int64
+}
+
+type Item struct {
+	Name string
+	Audit
+	Qty int32
+}
+
+type Rec struct {
+	Audit
+	ID    int64
+	Items []Item
+}
+"""),
+    # the mixin in two sibling nested structs
+    "TwoSiblings": ("""package main
+
+type GA struct {
+	X int32
+	K int64
+	L *string
+}
+
+type GB struct {
+	Y bool
+	K int64
+	L *string
+}
+
+type Rec struct {
+	A *GA
+	B GB
+}
+""", """package main
+
+type M struct {
+	K int64
+	L *string
+}
+
+type GA struct {
+	X int32
+	M
+}
+
+type GB struct {
+	Y bool
+	M
+}
+
+type Rec struct {
+	A *GA
+	B GB
+}
+"""),
+    # the mixin in the root and, last, in an optional nested struct
+    "RootAndOptional": ("""package main
+
+type T struct {
+	P float64
+	K int64
+	L []string
+}
+
+type Rec struct {
+	K  int64
+	L  []string
+	In *T
+	Z  bool
+}
+""", """package main
+
+type M struct {
+	K int64
+	L []string
+}
+
+type T struct {
+	P float64
+	M
+}
+
+type Rec struct {
+	M
+	In *T
+	Z  bool
+}
+"""),
+}
+
+
 def render_deco(forest, outer_first=False):
     """Go source of a forest that may contain decoration nodes:
        {"excl": True, "gofield": "<name> <type> [`tag`]"}  and  {"emb": True, "kids": [...]}
@@ -1725,6 +1885,10 @@ def c14():
     forests = export_shapes(3 if q else 4)
     cand = [decorate(f, stable_toff(f)) for f in forests]
     bases = [Program(shape_key(d), render_deco(d), d) for d in cand]
+    # hand-written pairs: ONE struct type embedded at several places of the record tree (a mixin), which the one-type-per-site
+    # decorations above never produce
+    hand = [Program("hand:" + k, b, None) for k, (b, d) in sorted(MIXIN_PAIRS.items())]
+    bases += hand
     build_programs(bases)
     bases = usable(bases)
     load_schemas(bases)
@@ -1754,6 +1918,8 @@ def c14():
             good.append(p)
     ck.cov["base_programs"] = len(good)
     ck.cov["base_programs_skipped_broken_see_C05"] = len(forests) - len(good)
+    hand_good = [p for p in good if p.forest is None]
+    good = [p for p in good if p.forest is not None]
     if q:
         good = ck.rng.sample(good, min(len(good), 45))
     # decoration sites from TLC
@@ -1835,6 +2001,11 @@ def c14():
         d = Program("%s || %s" % (p.key, what), render_deco(f, outer_first=what.endswith("declared outermost first")), f)
         d.basekey, d.base, d.what = p.key, p, what
         dprogs.append(d)
+    for p in hand_good:
+        d = Program("%s || the same struct type embedded at every place its fields occur" % p.key, MIXIN_PAIRS[p.key[5:]][1], None)
+        d.basekey, d.base, d.what = p.key, p, "mixin"
+        dprogs.append(d)
+    ck.cov["mixin_pairs"] = len(hand_good)
     from wfam import build_and_run
     for i, d in enumerate(dprogs):
         d.cases = cases_for(d, "d%d" % i)
